@@ -28,6 +28,9 @@ type c17Case struct {
 	Layers []c17Layer
 	Stream bool
 	NOpts  int // call options supplied by the caller
+	// DoneCtx (fake base only): the caller's context is already cancelled; the layers run all the same (what
+	// to do with a finished context is the interceptors' and the transport's decision, not the wrapper's)
+	DoneCtx bool `json:",omitempty"`
 }
 
 type c17Rec struct {
@@ -130,6 +133,8 @@ func propC17(c c17Case) *Outcome {
 				opts = nil
 			case "rw-method":
 				method = method + "~" + id
+			case "twice":
+				invoker(ctx, method, req, new(pb.Message), cc, opts...)
 			}
 			return invoker(ctx, method, req, reply, cc, opts...)
 		}
@@ -183,42 +188,59 @@ func propC17(c c17Case) *Outcome {
 	if c.Stream {
 		method = mBidi
 	}
-	nopts := c.NOpts
-	var wantLog []string
-	reachesBase := true
-	wantBare := false // the interceptor's own bare context.Canceled must come back as is
-	wantCode := codes.OK
-	wantCount := int32(77)
-	for i := len(c.Layers) - 1; i >= 0; i-- {
+	var wantLog, wantBase []string
+	baseHits := 0
+	type c17Res struct {
+		code  codes.Code
+		count int32
+		bare  bool // the interceptor's own bare context.Canceled must come back as is
+	}
+	finalMethod := method
+	var walk func(i int, method string, nopts int) c17Res
+	walk = func(i int, method string, nopts int) c17Res {
+		if i < 0 {
+			baseHits++
+			finalMethod = method
+			if c.Stream {
+				wantBase = append(wantBase, fmt.Sprintf("stream:%s:%d:true:true", method, nopts))
+			} else {
+				wantBase = append(wantBase, fmt.Sprintf("invoke:%s:%d:5", method, nopts))
+			}
+			return c17Res{code: codes.OK, count: 77}
+		}
 		beh := c.Layers[i].Unary
 		tag := "u"
 		if c.Stream {
 			beh, tag = c.Layers[i].Stream, "s"
 		}
 		if beh == "" {
-			continue
+			return walk(i-1, method, nopts)
 		}
 		id := fmt.Sprintf("L%d", i)
 		wantLog = append(wantLog, fmt.Sprintf("%s:%s:%s:%d:cc=%s", tag, id, method, nopts, ccWant))
-		stop := false
 		switch beh {
 		case "sc-err":
-			reachesBase, wantCode, stop = false, codes.FailedPrecondition, true
+			return c17Res{code: codes.FailedPrecondition}
 		case "sc-ctxerr":
-			reachesBase, wantCode, stop, wantBare = false, codes.Unknown, true, true
+			return c17Res{code: codes.Unknown, bare: true}
 		case "sc-ok":
-			reachesBase, wantCount, stop = false, 1000, true
+			return c17Res{code: codes.OK, count: 1000}
 		case "add-opt":
 			nopts++
 		case "drop-opts":
 			nopts = 0
 		case "rw-method":
 			method = method + "~" + id
+		case "twice":
+			// e.g. retry, or re-authenticate and repeat: the invoker is used twice, each use is a full call
+			walk(i-1, method, nopts)
 		}
-		if stop {
-			break
-		}
+		return walk(i-1, method, nopts)
 	}
+	res := walk(len(c.Layers)-1, method, c.NOpts)
+	method = finalMethod
+	reachesBase := baseHits > 0
+	wantBare, wantCode, wantCount := res.bare, res.code, res.count
 	var hdrs []metadata.MD
 	var opts []grpc.CallOption
 	for i := 0; i < c.NOpts; i++ {
@@ -231,6 +253,9 @@ func propC17(c c17Case) *Outcome {
 	stall := guard("call", func() {
 		ctx, cancel := context.WithCancel(context.Background())
 		defer cancel()
+		if c.DoneCtx && c.Base == "fake" {
+			cancel()
+		}
 		if c.Stream {
 			gotStream, err = ch.NewStream(ctx, streamDescOf(kBidi), mBidi, opts...)
 			if err == nil && c.Base != "fake" {
@@ -263,14 +288,6 @@ func propC17(c c17Case) *Outcome {
 	}
 	rewritten := method != mUnary && method != mBidi
 	if c.Base == "fake" {
-		var wantBase []string
-		if reachesBase {
-			if c.Stream {
-				wantBase = []string{fmt.Sprintf("stream:%s:%d:true:true", method, nopts)}
-			} else {
-				wantBase = []string{fmt.Sprintf("invoke:%s:%d:5", method, nopts)}
-			}
-		}
 		if !sameStrings(gotBase, wantBase) {
 			return o.failf("base channel saw %v, expected %v", gotBase, wantBase)
 		}
@@ -278,9 +295,13 @@ func propC17(c c17Case) *Outcome {
 			return o.failf("the stream returned to the caller is not the one the base channel created")
 		}
 	} else if reachesBase && !rewritten {
-		want := []string{"unary:5"}
-		if c.Stream {
-			want = []string{"stream:" + kBidi}
+		var want []string
+		for i := 0; i < baseHits; i++ {
+			if c.Stream {
+				want = append(want, "stream:"+kBidi)
+			} else {
+				want = append(want, "unary:5")
+			}
 		}
 		if !sameStrings(seen, want) {
 			return o.failf("base=%s: handler saw %v, expected %v", c.Base, seen, want)
@@ -324,7 +345,8 @@ func sameStrings(a, b []string) bool {
 func genC17(t *rapid.T) c17Case {
 	c := c17Case{Base: rapid.SampledFrom([]string{"fake", "fake", "inproc", "http", "grpc", "grpc"}).Draw(t, "base"), Stream: rapid.Bool().Draw(t, "stream"), NOpts: rapid.IntRange(0, 2).Draw(t, "nopts")}
 	n := rapid.IntRange(0, 4).Draw(t, "depth")
-	ub := []string{"", "pass", "pass", "pass", "sc-err", "sc-ctxerr", "sc-ok", "add-opt", "drop-opts", "rw-method"}
+	c.DoneCtx = c.Base == "fake" && rapid.IntRange(0, 3).Draw(t, "donectx") == 0
+	ub := []string{"", "pass", "pass", "pass", "sc-err", "sc-ctxerr", "sc-ok", "add-opt", "drop-opts", "rw-method", "twice"}
 	sb := []string{"", "pass", "pass", "pass", "sc-err", "sc-ctxerr", "add-opt", "drop-opts", "rw-method"}
 	for i := 0; i < n; i++ {
 		c.Layers = append(c.Layers, c17Layer{Unary: rapid.SampledFrom(ub).Draw(t, "u"), Stream: rapid.SampledFrom(sb).Draw(t, "s")})
@@ -334,8 +356,8 @@ func genC17(t *rapid.T) c17Case {
 
 func init() { registerReplay("C17", propC17) }
 
-const c17Rule = "rapid-generated: base channel (recording fake, in-process, httpgrpc, real *grpc.ClientConn over bufconn) x 0..4 InterceptClientConn layers, each with nil or non-nil unary and stream interceptors x behaviours (pass, short-circuit error, short-circuit success, append a call option, rewrite the method) x 0..2 caller options x unary/stream call; " +
-	"oracle = model log: outermost wrapper first, each applicable interceptor exactly once with the method and option count as transformed so far and cc = the underlying *grpc.ClientConn iff the base is one (at every depth, unary and stream alike); the base sees method/message/options as transformed; nil,nil returns the same channel; Unwrap returns the wrapped one; " +
+const c17Rule = "rapid-generated: base channel (recording fake, in-process, httpgrpc, real *grpc.ClientConn over bufconn) x 0..4 InterceptClientConn layers, each with nil or non-nil unary and stream interceptors x behaviours (pass, short-circuit error incl. a bare context error, short-circuit success, append / drop call options, rewrite the method, use the invoker twice) x 0..2 caller options x unary/stream call x caller context live or already cancelled (fake base); " +
+	"oracle = model log (recursive interpreter): outermost wrapper first, each applicable interceptor once per use of the invoker above it, with the method and option count as transformed so far and cc = the underlying *grpc.ClientConn iff the base is one (at every depth, unary and stream alike); the base sees method/message/options as transformed; nil,nil returns the same channel; Unwrap returns the wrapped one; " +
 	"non-trivial = depth >= 2; distinct by case hash"
 
 func TestC17(t *testing.T) {
